@@ -171,6 +171,8 @@ unit(M("c07_prune_glue", functions=["raw_cache::prune"], bounds="all capacities;
 unit(M("proto_glue", functions=["raw_cache::{insert_or_update,insert_or_touch,touch,ensure_file_touched,move_to_back_of_list,set_read_only,ensure_file_removed}",
                                  "cache_dir::CacheDir::{get,touch,set,put}", "sharded::Shard::file_exists", "sharded::Cache::{get,touch,set,put}"],
        bounds="every path of each function's MIR (no loops); every callee succeeding or failing; callees uninterpreted; crate-local helpers inlined"))
+unit(M("readonly_glue", functions=["readonly::ReadOnlyCache::get::doit", "readonly::ReadOnlyCache::touch::doit"],
+       bounds="stacks of up to 3 read-only levels (bounded unrolling of the scan), checker present/absent, every level hit/miss/failing, every checker and seek outcome"))
 unit(M("stack_gou_glue", functions=["stack::Cache::get_or_update", "stack::Cache::get_or_update::promote", "stack::Cache::get_or_update::{closure#0}", "stack::Cache::get_or_update::{closure#1}"],
        bounds="every path of the MIR (no loops): every combination of write cache present/absent, checker present/absent, hit/miss per level, judge answer, "
               "populate outcome, checker verdict, and success/failure of every callee, alone or together; callees uninterpreted"))
@@ -233,10 +235,10 @@ prop("C12", ["proto_glue", "c12_mapping", "c12_constants", "c12_new_clamps", "sh
      ["c12_format_id", "sharded_get_01", "sharded_get_10", "sharded_touch_01", "sharded_set_absent", "sharded_set_in_secondary", "sharded_put_in_secondary"],
      outside=["directory names for shard indices >= 2^20", "probe order is checked with the two candidate ids fixed to (0,1) and (1,0)"],
      assumptions=COMMON_ASSUME + ["z3 and cvc5 agree (both consulted on every obligation)"])
-prop("C13", ["stack_gou_glue", "stack_ops_glue", "stack_get_w1r1_nock", "stack_touch_w1r2", "stack_set_w0r1", "stack_ops_sanity_twin"],
+prop("C13", ["readonly_glue", "stack_gou_glue", "stack_ops_glue", "stack_get_w1r1_nock", "stack_touch_w1r2", "stack_set_w0r1", "stack_ops_sanity_twin"],
      ["stackc_set_w1r1", "stackc_touch_w1r2", "stackc_get_w1r2_bytes", "stackc_put_w1r1", "stackc_set_temp_w1r1", "stackc_put_temp_w1r1", "stack_set_w1r1", "stack_put_w1r1", "stack_set_temp_w1r1", "stack_put_temp_w2r0", "stack_put_temp_w0r1", "stack_get_w1r2_bytes", "stack_get_w0r2_bytes", "stack_get_w1r0_nock", "stack_get_w0r1_nock", "readonly_builder_equiv"],
      outside=["stack shapes other than those listed (writer in {none, plain, sharded} x up to two plain readers)"], assumptions=COMMON_ASSUME)
-prop("C14", ["stack_gou_glue", "stack_ops_glue", "stack_get_w1r1_nock", "stack_ops_sanity_twin"],
+prop("C14", ["readonly_glue", "stack_gou_glue", "stack_ops_glue", "stack_get_w1r1_nock", "stack_ops_sanity_twin"],
      ["stack_get_w1r2_bytes", "stackc_get_w1r2_bytes", "stack_get_w0r2_bytes", "readonly_builder_equiv"],
      outside=["checkers other than none / byte equality (the panicking checker is the same comparison followed by expect())"], assumptions=COMMON_ASSUME)
 prop("C15", ["proto_glue", "stack_get_w1r0_nock", "stack_touch_w1r2", "plain_get_seq", "stack_ops_sanity_twin"],
@@ -251,7 +253,7 @@ prop("C18", ["stack_gou_glue", "proto_glue", "stack_ops_glue", "stack_finalize_g
      ["stackc_set_temp_w1r1_fault", "plain_set_fault", "plain_put_fault", "sharded_put_absent_fault", "stackc_set_w1r1_fault", "stackc_put_temp_w1r1_fault", "stack_set_temp_w1r1_fault", "stack_set_w1r1_fault"],
      outside=["more than one failing call per operation", "failures inside the caller's populate function other than its own error return", "re-issuing the operation after the fault is covered by the fault-free harnesses starting from arbitrary valid states (C02)"],
      assumptions=COMMON_ASSUME)
-prop("C19", ["stack_gou_glue", "proto_glue", "stack_ops_glue", "stack_finalize_glue", "plain_get_seq", "stack_get_w1r0_nock", "raw_insert_or_update_basic", "stack_ops_sanity_twin"],
+prop("C19", ["readonly_glue", "stack_gou_glue", "proto_glue", "stack_ops_glue", "stack_finalize_glue", "plain_get_seq", "stack_get_w1r0_nock", "raw_insert_or_update_basic", "stack_ops_sanity_twin"],
      ["stack_get_w1r1_nock", "stackc_set_temp_w1r1", "stackc_put_temp_w1r1", "stack_get_w1r2_bytes", "stack_set_temp_w1r1", "stack_put_temp_w2r0", "plain_set_seq", "sharded_get_01"],
      outside=["the no-writer miss path returns the throw-away temp file itself (read-write by construction): only its offset is checked"],
      assumptions=COMMON_ASSUME + ["the process umask only influences the initial mode of caller-supplied files, which is symbolic"])
